@@ -750,7 +750,7 @@ def _check(run, wd, mods, farm, t_start):
     # ---- 3b. in-process allocation perturbation (forked workers)
     t0 = time.time()
     reps = 2 if quick else 6
-    deep_reps = 10 if quick else 30
+    deep_reps = 6 if quick else 30
     pops = [c05.rec_op(r) for r in pool if _encodable(r)]
     if quick:
         pops = pops[::2]              # fixed stride (seed-independent); the children run all of them
@@ -795,6 +795,23 @@ def _check(run, wd, mods, farm, t_start):
     perturb_round(pops, reps, True)
     perturb_round(explicit + suspicious[:40], deep_reps, False)
     timing["perturbation_s"] = round(time.time() - t0, 1)
+
+    # ---- 3e. the same text twice in one interpreter with > maxsize other parses in between, vs a fresh interpreter
+    #          (output must not depend on how many files a pool worker happened to format before: class of seed C06-c)
+    t0 = time.time()
+    sv = c05.sentinel_eviction_histories([r for r in pool if _encodable(r)])
+    sfail, n_sentinel = c05.run_histories_vs_fresh(farm, sv, "through", "window")
+    for kind, ops, detail in sfail:
+        i = detail.get("call", len(ops) - 1)
+        op = ops[min(i, len(ops) - 1)]
+        failures.append(("result-depends-on-files-formatted-before" if kind != "job-error" else "sentinel-job-failed",
+                         {"site": op[1] if op[0] in ("rule", "rejected") else "format_code", "call_index": i,
+                          "op": c05.enc(op), "history_len": len(ops), **{k: v for k, v in detail.items() if k != "problems"},
+                          "cache_problems": detail.get("problems"),
+                          "explanation": "a call returns something else after the interpreter has parsed more than 100 other "
+                                         "sources than in a fresh interpreter: the result depends on how many files the "
+                                         "worker formatted before (worker count / file order)"}))
+    timing["sentinel_s"] = round(time.time() - t0, 1)
 
     # ---- 3a. collect the hash-seed children
     t0 = time.time()
@@ -992,7 +1009,7 @@ def _check(run, wd, mods, farm, t_start):
         sweep={"hashseeds": seeds, "hashseeds_rules_only": rule_seeds, "suspicious_ops_rerun": len(suspicious),
                "format_code_inputs": len(fmt_inputs), "rule_inputs": len(rules),
                "generated_modules": len(gen), "comparisons": n_code, "perturbation_calls": n_perturb,
-               "perturbation_reps": reps, "trees": len(trees), "tree_comparisons": n_tree_cmp, "delayed_driver_runs": n_delay,
+               "perturbation_reps": reps, "trees": len(trees), "tree_comparisons": n_tree_cmp, "delayed_driver_runs": n_delay, "sentinel_history_calls": n_sentinel,
                "package_families": sorted(PACKAGE_FAMILIES), "package_runs": len(pkg_futs)},
         corpus_size=len(pool), corpus_harvest=hstats, histogram=dict(hist), timing=timing,
         failure_sites=dict(site_hist), correspondence_disagreements=len(disagreements),
